@@ -261,6 +261,19 @@ for label, cfg, want in [("unknown-section", {**copy.deepcopy(BASE), "xyzzy": 1}
     if not ok:
         fail("exit-status", f"{label}: the signer ends with {st}, expected {'the configuration-error status 2' if want == '2' else 'a non-zero status'}", {"status": st})
 
+# every kind of location an error can have: scalar option, element of a list-valued option, numbered schema slot, nested key entry
+for path, v in [(("request_policy", "acceptable_domains"), [".", "exa mple"]), (("request_policy", "num_keys_per_bundle"), [2, 0, 1]), (("request_policy", "rsa_approved_key_sizes"), [2048, 70000]),
+                (("request_policy", "rsa_approved_exponents"), [65537, 0]), (("schemas", "normal", 3, "sign"), "bad name!"),
+                (("schemas", "normal", 3, "publsh"), "ksk_current"), (("keys", "ksk_current", "key_tag"), 65536), (("request_policy", "num_bundles"), 0), (("ksk_policy", "ttl"), -1),
+                (("keys", "ksk_current", "ds_sha256"), "not-hex"), (("request_policy", "min_bundle_interval"), "P1X")]:
+    cfg = copy.deepcopy(BASE)
+    setp(cfg, path, v)
+    cfg["filenames"]["previous_skr"] = None
+    st = exit_status_of(cfg)
+    count("exit-status")
+    if st != "2":
+        fail("exit-status", f"{'.'.join(map(str, path))} = {v!r}: the signer ends with {st}, expected the configuration-error status 2", {"status": st, "path": path, "value": v})
+
 # ------------------------------------------------------------------ 4. random well-formed configurations through YAML
 for i in range(25 * SCALE):
     rp = {"num_bundles": R.randrange(1, 12), "validate_signatures": R.random() < 0.5, "check_cycle_length": R.random() < 0.5, "signature_horizon_days": R.randrange(1, 400),
